@@ -67,6 +67,15 @@ def base_spec(rng):
     }
     if spec["halo"] == "resolved":
         spec["halo"] = max(xmax, ymax)
+    if rng.random() < 0.15:
+        # a larger, FFT-friendlier padded grid (32..52 points per side): more
+        # than one FFTW algorithm is competitive there, so plan-dependent
+        # rounding can show
+        spec["nx"] = rng.choice([16, 20, 24, 32])
+        spec["ny"] = rng.choice([12, 16, 24])
+        spec["domain"] = [50.0 * spec["nx"], 50.0 * spec["ny"]]
+        spec["halo"] = rng.choice([300.0, 500.0])
+        spec["meas_pt"] = [200.0, 150.0]
     if spec["analytic"] and not isinstance(spec["levels"], list):
         pass  # scalar levels are wrapped by the solver before analytic indexing
     return spec
